@@ -680,14 +680,19 @@ def asdfLoad (t : Tree) : Tree :=
 
 def AsdfLib.observed : AsdfLib := ⟨asdfLoad⟩
 
-/-- **The assumption about the ASDF library**, as a hypothesis of the file theorems: trees of
-grids, fields and mode bases come back as stored up to NumPy-scalar weights.  (The FITS models of
-fields and mode bases, `writeFieldFits` / `writeBasisFits`, identify the embedded tree with the
-stored one; there the harness canonicalises NumPy-scalar weights before comparing.) -/
+/-- **The assumption about the ASDF library**, as a hypothesis of the file theorems: as far as
+`from_dict` can tell, the trees of grids, fields and mode bases come back as stored, NumPy-scalar
+weights as Python numbers.  (`from_dict` only looks keys up; the real library returns the keys of
+every dictionary in alphabetical order, which is why the clauses are stated through `fromDict`
+rather than as equality of association lists.  The harness compares the tree loaded from every
+file with `normGridTree`/`normObjTree` of the tree stored, dictionaries as maps.)  The FITS models
+of fields and mode bases, `writeFieldFits` / `writeBasisFits`, identify the embedded tree with the
+stored one; there the harness canonicalises NumPy-scalar weights before comparing. -/
 structure AsdfFaithful (lib : AsdfLib) : Prop where
-  grid : ∀ g : Grid, lib.load g.toDict = normGridTree g.toDict
-  field : ∀ f : Field, lib.load f.toDict = normObjTree f.toDict
-  basis : ∀ (b : ModeBasis) (t : Tree), b.toDict = .ok t → lib.load t = normObjTree t
+  grid : ∀ g : Grid, Grid.fromDict (lib.load g.toDict) = Grid.fromDict (normGridTree g.toDict)
+  field : ∀ f : Field, Field.fromDict (lib.load f.toDict) = Field.fromDict (normObjTree f.toDict)
+  basis : ∀ (b : ModeBasis) (t : Tree), b.toDict = .ok t →
+    ModeBasis.fromDict (lib.load t) = ModeBasis.fromDict (normObjTree t)
 
 /-- the grid as it is after a pass through ASDF: NumPy-scalar weights are Python numbers -/
 def Grid.pyWeights (g : Grid) : Grid := { g with weights := pyScalar g.weights }
